@@ -134,7 +134,7 @@ def tcRun (cfg : EulerCfg) (tps : List Rat) (c : Content) : Except Err (Content 
         let p ← snapshot c
         pure (c, some [{ rows, pars := p }])
 
-def tcWorker (cfg : EulerCfg) (tps : List Rat) : Worker := { run := tcRun cfg tps, dfltIndex := tps }
+def tcWorker (cfg : EulerCfg) (tps : List Rat) : Worker := { run := tcRun cfg tps, dfltIndex := tcIndex tps }
 
 /-! ### protocol -/
 
@@ -180,26 +180,51 @@ def protoLoop (gridOf : Integ → Rat → Rat → List Rat) :
           let rows' := if segs.isEmpty then rows else rows.drop 1
           protoLoop gridOf c1 ig' (segs ++ [{ rows := rows', pars := p }]) tEnd rest
 
+/-- `Simulator.simulate_protocol`: per step `update_parameters`, then `simulate(t_end, steps)` — the end must
+    lie after everything simulated so far, the integrator returns `linspace(t0, t_end, steps + 1)` —, first
+    row of every later step dropped, parameter snapshot per step, `break` after a failed first step -/
+def simLoop (steps : Nat) :
+    Content → Integ → List Seg → Protocol → Except Err (Content × Option (List Seg))
+  | c, _, segs, [] => .ok (c, if segs.isEmpty then none else some segs)
+  | c, ig, segs, step :: rest =>
+    match updatePars c step.2 with
+    | .error e => .error e
+    | .ok c1 =>
+      if step.1 ≤ lastTime segs then
+        .error (.valueError "End time point has to be larger than previous end time point")
+      else
+        match integrateTC c1 ig (linspace ig.t0 step.1 (steps + 1)) with
+        | .error e => .error e
+        | .ok (_, none) =>
+          if segs.isEmpty then .ok (c1, none)
+          else
+            match applyRemaining c1 rest with
+            | .error e => .error e
+            | .ok c2 => .ok (c2, none)
+        | .ok (ig', some rows) =>
+          match snapshot c1 with
+          | .error e => .error e
+          | .ok p =>
+            simLoop steps c1 ig' (segs ++ [{ rows := if segs.isEmpty then rows else rows.drop 1, pars := p }]) rest
+
 def protoRun (cfg : EulerCfg) (proto : Protocol) (steps : Nat) (c : Content) :
-    Except Err (Content × Option (List Seg)) := do
-  let ig ← simInit cfg c
-  protoLoop (fun ig _ tEnd => linspace ig.t0 tEnd (steps + 1)) c ig [] 0 proto
-
-/-- the `time_points` of the protocol worker's placeholder:
-    `np.linspace(0, protocol.index[-1].total_seconds(), len(protocol) * time_points_per_step)` -/
-def protoDflt (proto : Protocol) (steps : Nat) : List Rat :=
-  linspace 0 ((proto.getLast?.map (·.1)).getD 0) (proto.length * steps)
-
-def protoWorker (cfg : EulerCfg) (proto : Protocol) (steps : Nat) : Worker :=
-  { run := protoRun cfg proto steps, dfltIndex := protoDflt proto steps }
+    Except Err (Content × Option (List Seg)) :=
+  match simInit cfg c with
+  | .error e => .error e
+  | .ok ig => simLoop steps c ig [] proto
 
 /-- time index of a successful protocol run that starts at 0: the first step contributes
     `steps + 1` points, every later step `steps` (its first point is dropped) -/
 def protoIndex (steps : Nat) : Rat → Bool → Protocol → List Rat
   | _, _, [] => []
-  | t0, first, (tEnd, _) :: rest =>
-    let g := linspace t0 tEnd (steps + 1)
-    (if first then g else g.drop 1) ++ protoIndex steps tEnd false rest
+  | t0, first, step :: rest =>
+    let g := linspace t0 step.1 (steps + 1)
+    (if first then g else g.drop 1) ++ protoIndex steps step.1 false rest
+
+/-- the placeholder of a failed row carries the time points of a successful run (after
+    "fix: NaN placeholders of failed scan rows have the time points of a successful run") -/
+def protoWorker (cfg : EulerCfg) (proto : Protocol) (steps : Nat) : Worker :=
+  { run := protoRun cfg proto steps, dfltIndex := protoIndex steps 0 true proto }
 
 /-! ### protocol + explicit time points -/
 
@@ -221,13 +246,13 @@ def ptcRun (cfg : EulerCfg) (proto : Protocol) (tps : List Rat) (c : Content) :
       let full := joinOuter (proto.map (·.1)) tps
       protoLoop (fun _ tStart tEnd => full.filter fun t => decide (tStart < t) && decide (t ≤ tEnd)) c ig [] 0 proto
 
-def ptcWorker (cfg : EulerCfg) (proto : Protocol) (tps : List Rat) : Worker :=
-  { run := ptcRun cfg proto tps, dfltIndex := tps }
-
 /-- time index of a successful protocol-time-course run: 0, then every protocol end and every
     requested point inside `(0, T_end]` -/
 def ptcIndex (proto : Protocol) (tps : List Rat) : List Rat :=
   let tEnd := (proto.getLast?.map (·.1)).getD 0
   0 :: (joinOuter (proto.map (·.1)) tps).filter fun t => decide (0 < t) && decide (t ≤ tEnd)
+
+def ptcWorker (cfg : EulerCfg) (proto : Protocol) (tps : List Rat) : Worker :=
+  { run := ptcRun cfg proto tps, dfltIndex := ptcIndex proto tps }
 
 end Mxl.C09
